@@ -26,6 +26,25 @@ def _text(node):
     return ast.unparse(node)
 
 
+def _writes_receiver(fn):
+    """does the method change the object it is called on (attribute / item stores, del, mutator calls rooted at its self)?"""
+    if not fn.args.args:
+        return False
+    s_ = fn.args.args[0].arg
+
+    def rooted(n):
+        while isinstance(n, (ast.Attribute, ast.Subscript)):
+            n = n.value
+        return isinstance(n, ast.Name) and n.id == s_
+    for n in ast.walk(fn):
+        if isinstance(n, (ast.Attribute, ast.Subscript)) and isinstance(getattr(n, "ctx", None), (ast.Store, ast.Del)) and rooted(n):
+            return True
+        if isinstance(n, ast.Call) and isinstance(n.func, ast.Attribute) and n.func.attr in MUTATORS and rooted(n.func.value) \
+                and not isinstance(n.func.value, ast.Name):
+            return True
+    return False
+
+
 class Atomic(PathRule):
     """state: frozenset of tokens
          ('M', text)            uncompensated mutation of state reachable from a parameter
@@ -120,6 +139,12 @@ class Atomic(PathRule):
                     may = True
                 if t in self.builders:
                     mutates = True
+            # a method called on *another* object reachable from the arguments (the variant's previous parent, say) that changes
+            # that object: state the caller can see has changed, just as if the statement stood here
+            if targets and isinstance(c.func, ast.Attribute) and self._is_state_root(c.func.value) \
+                    and not (isinstance(c.func.value, ast.Name) and self.fref.node.args.args and c.func.value.id == self.fref.node.args.args[0].arg) \
+                    and all(_writes_receiver(t.node) for t in targets):
+                mutates = True
             if isinstance(c.func, ast.Attribute) and c.func.attr == "validate":
                 may = True
             if may:
